@@ -12,7 +12,7 @@ class Ldmda(Opcode):
     def execute(self, processor):
         registers_count = bit_count(self.registers, 1, 16)
         if processor.condition_passed():
-            address = sub(processor.registers.get(self.n), 4 * registers_count, 32) + 4
+            address = add(sub(processor.registers.get(self.n), 4 * registers_count, 32), 4, 32)
             for i in range(15):
                 if bit_at(self.registers, i):
                     processor.registers.set(i, processor.mem_a_get(address, 4))
